@@ -15,11 +15,13 @@ def run_property(ck: Check, prop: str):
         proved = ck.lean_obligations()
     have_model = (LEAN / 'BqVerif' / 'Drivers' / 'Runtime.lean').exists()
     agg = rc.run_batch(ck.seed, ck.tier, have_model)
+    # the exhaustive exploration of the smallest scenarios first: its
+    # schedules are the shortest reproducers of a signature
+    rc.report_exhaustive(ck, prop)
     rc.report(ck, agg, prop)
     if have_model:
         from harness import runtime_model as rm
         rm.report(ck, agg, prop)
-    rc.report_exhaustive(ck, prop)
     extra = getattr(rc, f'extra_{prop.lower()}', None)
     if extra:
         extra(ck)
